@@ -177,7 +177,21 @@ def run(repo, rep, tier):
             raise AnalysisError('%s.tomof vanished' % cname)
         r6.sites += 1
         r6.functions.add(f.fq)
-        used = {n.attr for n in walk_no_nested(f.node)
+        # attributes read by tomof() or by the private methods it calls
+        seen_m, work_m = [], [f]
+        while work_m:
+            g = work_m.pop()
+            if g in seen_m:
+                continue
+            seen_m.append(g)
+            for c_ in walk_no_nested(g.node):
+                if isinstance(c_, ast.Call):
+                    d_ = dotted(c_.func) or ''
+                    if d_.startswith('self._') and d_.count('.') == 1:
+                        h_ = cls.find_method(d_[5:])
+                        if h_ is not None:
+                            work_m.append(h_)
+        used = {n.attr for g in seen_m for n in walk_no_nested(g.node)
                 if isinstance(n, ast.Attribute) and
                 isinstance(n.value, ast.Name) and n.value.id == 'self'}
         for sl in cls.slots() or []:
@@ -507,35 +521,33 @@ def run(repo, rep, tier):
         doc = ast.get_docstring(f.node, clean=False) or ''
         return set(doc.split(':', 1)[1].replace('|', ' ').split())
     qd = repo.cls(OBJ, 'CIMQualifierDeclaration').methods.get('tomof')
-    # the flavor list is identified by its role: the list that is joined
-    # right after the literal 'Flavor(' is written
-    joined = set()
-
-    def _appended(st):
-        if isinstance(st, ast.Expr) and isinstance(st.value, ast.Call) and \
-                isinstance(st.value.func, ast.Attribute) and \
-                st.value.func.attr == 'append' and st.value.args:
-            return st.value.args[0]
-        return None
-    for blk in ast.walk(qd.node):
-        body = getattr(blk, 'body', None)
-        if not isinstance(body, list):
+    # the flavor keywords tomof() can write: the capitalised alphabetic
+    # string constants of the function and of the private helpers it calls
+    # (however they reach the joined list: appended one by one, taken from a
+    # table of (attribute, keyword) tuples, ...)
+    qcls = repo.cls(OBJ, 'CIMQualifierDeclaration')
+    seen_f, work_f = [], [qd]
+    while work_f:
+        g = work_f.pop()
+        if g in seen_f:
             continue
-        for a, b in zip(body, body[1:]):
-            x, y = _appended(a), _appended(b)
-            if x is not None and (const_str(x) or '').startswith('Flavor(') \
-                    and isinstance(y, ast.Call) and \
-                    isinstance(y.func, ast.Attribute) and \
-                    y.func.attr == 'join' and y.args and \
-                    isinstance(y.args[0], ast.Name):
-                joined.add(y.args[0].id)
-    flavors = [const_str(c.args[0]) for c in walk_no_nested(qd.node)
-               if isinstance(c, ast.Call) and
-               isinstance(c.func, ast.Attribute) and
-               c.func.attr == 'append' and
-               isinstance(c.func.value, ast.Name) and
-               c.func.value.id in joined and c.args and
-               const_str(c.args[0]) is not None]
+        seen_f.append(g)
+        for c in walk_no_nested(g.node):
+            if isinstance(c, ast.Call):
+                d_ = dotted(c.func) or ''
+                if d_.startswith('self._') and d_.count('.') == 1:
+                    h_ = qcls.find_method(d_[5:])
+                    if h_ is not None:
+                        work_f.append(h_)
+    flavors = []
+    for g in seen_f:
+        doc = ast.get_docstring(g.node, clean=False)
+        for c in walk_no_nested(g.node):
+            if isinstance(c, ast.Constant) and isinstance(c.value, str) and \
+                    c.value != doc and \
+                    re.fullmatch(r'[A-Z][a-z]+(?:[A-Z][a-z]+)*', c.value) \
+                    and c.value not in flavors:
+                flavors.append(c.value)
     if len(flavors) < 5:
         raise AnalysisError('flavor keywords of tomof() not found')
     falts = alternatives('p_flavor')
@@ -860,15 +872,27 @@ def _r9_array_braces(repo, rep):
     for f in obj.all_funcs():
         if 'tomof' not in f.name:
             continue
+        from ..cfg import expr_guards
+        braces = []
         for st, (fs, _t) in stmt_facts(f.node).items():
-            if not (isinstance(st, ast.Expr) and
-                    isinstance(st.value, ast.Call) and
-                    isinstance(st.value.func, ast.Attribute) and
-                    st.value.func.attr == 'append' and st.value.args):
+            if isinstance(st, (ast.If, ast.For, ast.While, ast.Try,
+                               ast.With)):
                 continue
-            c = const_str(st.value.args[0])
-            if c is None or '{' not in c or '\n' in c:
-                continue
+            if isinstance(st, ast.Expr) and \
+                    isinstance(st.value, ast.Constant):
+                continue                    # docstring
+            # an opening brace written as MOF text: appended, put into a
+            # list literal, or bound to a local that is written later
+            for cn in ast.walk(st):
+                if isinstance(cn, ast.Constant) and \
+                        isinstance(cn.value, str) and '{' in cn.value and \
+                        '\n' not in cn.value and \
+                        not any(isinstance(x, ast.Call) and
+                                dotted(x.func) in ('_format', 'format') and
+                                any(cn is y for y in ast.walk(x))
+                                for x in ast.walk(st)):
+                    braces.append((st, list(fs) + list(expr_guards(st, cn))))
+        for st, fs in braces:
             r9.sites += 1
             r9.functions.add(f.fq)
             ok = False
@@ -892,7 +916,7 @@ def _r9_array_braces(repo, rep):
                             'value is NULL is written as `{ NULL }`, which '
                             'recompiles to [None] instead of NULL'
                             % ([norm(t, 40) for t, _p in fs] or 'none'))
-    if r9.sites < 3:
+    if r9.sites < 2:
         raise AnalysisError('C08.R9: only %d array initialiser sites'
                             % r9.sites)
 
@@ -1016,6 +1040,6 @@ def _r11_keyword_by_own_attribute(repo, rep):
                             'is printed without it (and compiles back '
                             'without it) depending on an unrelated '
                             'attribute' % (lit.strip(), sorted(attrs)))
-    if r11.sites < 8:
+    if r11.sites < 3:
         raise AnalysisError('C08.R11: only %d keyword literals in the '
                             'tomof() methods' % r11.sites)
